@@ -267,7 +267,7 @@ theorem DRes.of_fin {T compat ai S} {k : Nat} {s0 : Stream} {mol : Mol} {rings :
       match __x with
         | (s', n) => pure ({ stream := s', mol := mol, rings := rings }, n) : Py (DState × Nat))
       = .ok r) : DRes T compat ai S s0.toks mol md nd r := by
-  obtain ⟨⟨s', n⟩, h1, h2⟩ := bind_ok h
+  obtain ⟨⟨s', n⟩, h1, h2⟩ := bind_okD h
   cases h2
   obtain ⟨pre, e1, e2, e3⟩ := consumeRest_toks compat _ _ _ _ _ _ h1
   exact ⟨pre, Seg.toks mol e1, e2, e3, hA⟩
